@@ -1,3 +1,6 @@
 import Tumfl.Props.C07
+import Tumfl.Props.Lex
 #print axioms Tumfl.Props.C07_partial
 #print axioms Tumfl.Props.C07_canonical
+#print axioms Tumfl.Props.Lex_complete
+#print axioms Tumfl.Props.Lex_sound
